@@ -69,7 +69,53 @@ fn depths(report: &Report) -> (usize, bool, bool) {
     }
 }
 
+/// "Asking for the latest complete version selects the newest of them" where band ids get one more
+/// digit or contain every digit: complete versions at ids (8, 9, 10), (98, 99, 100), (9998, 9999,
+/// 10000) written by the independent writer, with every subset of them being complete.
+pub fn high_id_cases() -> Vec<(Violation, Value)> {
+    use crate::fmt06::{self, BandSpec};
+    let mut out = Vec::new();
+    let scratch = crate::util::Scratch::new("c02ids");
+    for base in [8u32, 98, 9998] {
+        for mask in 1u32..8 {
+            let dir = scratch.fresh("a");
+            fmt06::write_archive_skeleton(&dir);
+            let mut newest_complete = None;
+            for i in 0..3u32 {
+                let complete = mask & (1 << i) != 0;
+                fmt06::write_band(
+                    &dir,
+                    &BandSpec {
+                        id: base + i,
+                        head: true,
+                        tail: if complete { Some(1) } else { None },
+                        hunks: vec![vec![fmt06::symlink_entry("/a", &format!("from-b{}", base + i))]],
+                    },
+                );
+                if complete {
+                    newest_complete = Some(base + i);
+                }
+            }
+            let (o, got) = crate::run::do_resolve(&dir, crate::run::Sel::LatestClosed);
+            if got != newest_complete {
+                out.push((
+                    Violation::new(
+                        "C02:latest-complete-version-wrong:band-ids-with-more-digits",
+                        format!("versions b{base}..b{} with completeness mask {mask:03b}: the latest complete one is {newest_complete:?}, resolving gives {got:?} ({})", base + 2, o.describe()),
+                    ),
+                    json!({"kind": "c02-ids"}),
+                ));
+            }
+            let _ = std::fs::remove_dir_all(&dir);
+        }
+    }
+    out
+}
+
 pub fn run(report: &Report, budget: &Budget) {
+    for (v, c) in high_id_cases() {
+        report.violation(&v, &c);
+    }
     let (d, full, allcp) = depths(report);
     let st = hist::explore(report, budget, "C02", d, full, allcp, true, &oracle, None, None);
     hist::write_stats(report, &st, d);
